@@ -494,11 +494,18 @@ func (s Segment) forRewrite() (*RewriteSegment, error) {
 	return dst, nil
 }
 
-func (src Segment) Rewrite(dropOffsets map[int64]struct{}, params index.Params, mversion message.Version, iversion index.Version) (*RewriteSegment, error) {
+func (src Segment) Rewrite(dropOffsets map[int64]struct{}, params index.Params, mversion message.Version, iversion index.Version) (_ *RewriteSegment, retErr error) {
 	dst, err := src.forRewrite()
 	if err != nil {
 		return nil, err
 	}
+	defer func() {
+		if retErr != nil {
+			// do not leave a partial rewrite behind
+			_ = os.Remove(dst.Log)
+			_ = os.Remove(dst.Index)
+		}
+	}()
 
 	srcLog, err := message.OpenReader(src.Log, src.Offset)
 	if err != nil {
